@@ -122,7 +122,7 @@ def run(ctx, obl):
         im["exit"] = str(r["runs"][0]["rc"])
         im["compile"] = "ok" if r["compile"] == "ok" else "error"
         src = "\n".join(r["written"].values())
-        im["optnames"] = " ".join(re.findall(r"^func (\w+)\([^)]*\) (?:shoot\.)?Option\[", src, flags=re.M))
+        im["optnames"] = " ".join(re.findall(r"^func (\w+)(?:\[[^\]]*\])?\([^)]*\) (?:shoot\.)?Option\[", src, flags=re.M))
         im["hasdefault"] = "true" if re.search(r"^func \(\w+ \*[^)]+\) SetDefault\(\)", src, flags=re.M) else "false"
         impl[c["id"]] = im
     model = core.model_run(ctx, [c["sexp"] for c in cases])
@@ -135,11 +135,6 @@ def run(ctx, obl):
             for k in list(m[side]):
                 if k.startswith("seq:") and m[side][k] != "panic":
                     m[side][k] = ";".join(norm_leaf(x, types) for x in m[side][k].split(";") if x)
-        generic = bool(c["spec"].get("tparams"))
-        if generic and m["region"] != "Out":
-            # -opt on a generic struct: the template pastes `[K, V]` into the option function name / leaves K undeclared
-            m["region"] = "F_optGeneric"
-            m["model"] = {}   # the model does not mirror this failure; tie not asserted
         for k, v in newgen.count_features(c["spec"]).items():
             res.hist("features", k)
 
